@@ -22,7 +22,7 @@ TECHNIQUE = 'inverse-physical-law oracle over random parameter sets, per-branch 
 RULE = ('parameter sets over physical ranges x 25 points each; non-trivial = set exercising a non-default branch (lead != 0, T < 0, initial '
         'voltage != 0, gain != 1, voltage excitation); distinct = rounded parameter tuple')
 ASSUMPTIONS = ['tolerance 1e-6 relative with a 1e-9 absolute floor near zero']
-REQUIRED = ['rtd_cross_object_points', 'purity_calls', 'rtd_points', 'rtd_branch_point_sets', 'rtd_quartic_points', 'thermistor_points', 'strain_points', 'poly_points', 'table_points', 'through_channel',
+REQUIRED = ['single_precision_points', 'rtd_cross_object_points', 'purity_calls', 'rtd_points', 'rtd_branch_point_sets', 'rtd_quartic_points', 'thermistor_points', 'strain_points', 'poly_points', 'table_points', 'through_channel',
             'branch:rtd:2-wire', 'branch:rtd:3-wire', 'branch:rtd:4-wire', 'branch:thermistor:current', 'branch:thermistor:voltage'] + \
            ['branch:strain:%d' % c for c in (10183, 10184, 10185, 10188, 10189, 10271, 10272)]
 N = {'quick': 9600, 'thorough': 3000000}
@@ -121,6 +121,18 @@ def rtd(case, ctx, rng):
     except Exception as ex:
         if case['k'] != 'rtd0':
             ctx.violation('rtd/cross-object/raises/%s' % util.exc_key(ex), {'exc': util.exc_detail(ex)})
+    try:
+        v32 = volts.astype('f4')
+        t32 = np.asarray(sc.scale(v32.copy()), dtype='f8')
+        back = current * (r0 * (1 + a * t32 + b * t32 ** 2 + np.where(t32 < 0, c * (t32 - 100.0) * t32 ** 3, 0.0)) + k * lead)
+        ctx.count('single_precision_points', len(t32))
+        ok32 = np.abs(back - v32.astype('f8')) <= 1e-6 * np.abs(v32.astype('f8')) + 1e-12
+        if case['k'] != 'rtd0' and not ok32.all():
+            i = int(np.nonzero(~ok32)[0][0])
+            ctx.violation('rtd/single-precision-input-loses-accuracy', {'params': params, 'V': float(v32[i]), 'T': float(t32[i]), 'V_back': float(back[i])})
+    except Exception as ex:
+        if case['k'] != 'rtd0':
+            ctx.violation('rtd/single-precision/raises/%s' % util.exc_key(ex), {'exc': util.exc_detail(ex)})
     desc = dict(kind='RTD', current=current, r0=r0, a=a, b=b, c=c, lead=lead, config=config, src=SG.RAW)
     for label, fn in (('direct', lambda: pure_call(ctx, sc, volts, 'rtd')), ('channel', lambda: through_channel(ctx, desc, volts))):
         try:
